@@ -386,7 +386,8 @@ func consume(c Case, data []byte) (o outcome, problem error) {
 		}()
 	}
 	deadline := deadline + time.Duration(c.Consumer.StallMs)*time.Millisecond
-	timeout := vk.After(deadline)
+	timeout, releaseTimeout := vk.AfterStop(deadline)
+	defer releaseTimeout()
 	yield := func(i int) {
 		if i == 1 && c.Consumer.StallMs > 0 {
 			time.Sleep(time.Duration(c.Consumer.StallMs) * time.Millisecond)
